@@ -61,6 +61,10 @@ fn main() {
             props::smoke::raw_rec();
             return;
         }
+        "c12dbg" => {
+            props::c12::debug_trace(1);
+            return;
+        }
         "poolsizes" => {
             props::smoke::pool_sizes();
             return;
